@@ -117,7 +117,7 @@ Proof.
   destruct (Hc body eq_refl) as [<- Lb].
   assert (P : py_slice hdr_body_lo (hdr_body_lo + L) (hdr ++ body) = body).
   { rewrite <- (app_nil_r body) at 1. apply (py_slice_mid hdr body []); [exact SL|]. change hdr_body_lo with 24. lia. }
-  rewrite P. change (Z.to_nat hdr_ck_len_read) with 4%nat. fold (ck4 body).
+  rewrite P. change hdr_ck_check with (Some 4). cbv iota. change (Z.to_nat 4) with 4%nat. fold (ck4 body).
   destruct (negb (bytes_eqb ck (ck4 body))); [reflexivity|].
   change (split_first hdr_cmd_split c12) with (take_until x00 c12). unfold dispatch.
   destruct (lookup (take_until x00 c12) messagemap); reflexivity.
